@@ -68,6 +68,13 @@ inductive Sync
   | none | ok | fail
   deriving DecidableEq, Repr
 
+/-- what the endpoint's `connect()` Deferred fails with when it is cancelled: `CancelledError` (a Deferred without a
+    canceller, `deferLater`, the test endpoints), `ConnectingCancelledError` (Twisted's TCP / hostname / TLS
+    endpoints) or any other failure -/
+inductive CancelKind
+  | cancelled | connecting | other
+  deriving DecidableEq, Repr
+
 inductive EvR
   | make (id : Int) (expect : Bool) (hook : Option Hook)
   | flat (e : Ev)
@@ -76,6 +83,11 @@ inductive EvR
   | stubborn (on : Bool)
   /-- environment switch: from now on the endpoint answers `connect()` synchronously (or not) -/
   | syncMode (m : Sync)
+  /-- environment switch: from now on a cancelled connection attempt fails with this kind of failure.  The code
+      never looks at it (`ebConnect` tests `self._dDown`, `connectingFailed` handles whatever comes), so the
+      switch changes nothing in the model: `close()` during an attempt ends the retry loop and fires the
+      close Deferred whatever the endpoint reports. -/
+  | cancelMode (k : CancelKind)
   deriving DecidableEq, Repr
 
 structure StR where
@@ -325,6 +337,7 @@ def stepRWith (cfg : Cfg) (fuel : Nat) (s : StR) : EvR → StR × List ObR
   | .flat e => let r := step cfg s.core e; ({ s with core := r.1 }, obs r.2)
   | .stubborn on => ({ s with stubborn := on }, [])
   | .syncMode m => ({ s with sync := m }, [])
+  | .cancelMode _ => (s, [])
 
 /-- the fuel the driver runs with -/
 def fuel : Nat := 100000
